@@ -27,7 +27,7 @@ const (
 
 var pointName = map[uint8]string{
 	1: "BeforeRLock", 2: "BeforeLock", 3: "AfterUnlock", 4: "MidCommit1", 5: "MidCommit2", 6: "MidCommit3",
-	7: "AfterReserve", 8: "KeyChecked", 9: "SnapshotPhase",
+	7: "AfterReserve", 8: "KeyChecked", 9: "SnapshotPhase", 10: "IndexBuild",
 	ptStart: "start", ptBetween: "betweenOps", ptInRead: "inRead", ptTxnEdge: "txnEdge", ptLinkWait: "linkWait", ptIdle: "vacuumIdle", ptClock: "clockAdvance",
 }
 
